@@ -22,7 +22,10 @@ import (
 
 const prop = "C08"
 
-var faults = []string{"stall", "eof", "ioerr", "ioerr+data", "oversize-burst", "oversize-by-1", "oversize-by-2", "oversize-by-4", "oversize-drip", "write-error", "setwritedeadline-error", "cancel", "cancel-before", "cancel-before+reply", "flush-error"}
+var faults = []string{"stall", "eof", "ioerr", "ioerr+data", "oversize-burst", "oversize-by-1", "oversize-by-2", "oversize-by-4", "oversize-drip", "write-error", "setwritedeadline-error", "cancel", "cancel-before", "cancel-before+reply", "flush-error", "ctx-deadline",
+	// two things failing at once on a serial port that can be flushed (an unplugged adapter): the transport failure AND the
+	// flush the client attempts on its failure path
+	"write-error+flush-error", "ioerr+flush-error", "ioerr+data+flush-error", "eof+flush-error"}
 
 type Case struct {
 	Kind    int      `json:"kind"`
@@ -73,7 +76,7 @@ func (f *faulty) Read(t *clientx.Transport, bufLen int) clientx.ReadAnswer {
 	first := !f.fired
 	f.fired = true
 	switch f.fault {
-	case "stall", "write-error", "setwritedeadline-error", "cancel-before", "cancel-before+reply", "flush-error":
+	case "stall", "write-error", "setwritedeadline-error", "cancel-before", "cancel-before+reply", "flush-error", "ctx-deadline":
 		return f.silent()
 	case "eof":
 		return clientx.ReadAnswer{Err: io.EOF, Label: "eof"}
@@ -139,14 +142,18 @@ func (f *faulty) SetWriteDeadline(t *clientx.Transport) error {
 }
 
 const readTimeout = 5 * time.Millisecond
+const ctxTimeout = 2 * time.Millisecond
 
 func opts(c Case) clientx.Options {
 	o := clientx.Options{ReadTimeout: readTimeout}
 	switch c.Fault {
 	case "cancel-before", "cancel-before+reply":
 		o.CancelBefore = true
-	case "flush-error":
+	case "flush-error", "write-error+flush-error", "ioerr+flush-error", "ioerr+data+flush-error", "eof+flush-error":
 		o.FlushErr = errInjected
+	case "ctx-deadline":
+		// the caller's own deadline (2 ms of virtual time) ends before the library's read timeout (5 ms) while the line is silent
+		o.CtxTimeout = ctxTimeout
 	}
 	switch c.Special {
 	case "not-connected":
@@ -193,6 +200,12 @@ func judge(sc clientx.Sc, run clientx.Run, c Case, res *ev.Result) (nontrivial b
 		}
 	}
 	cancelled = c.Fault == "cancel-before" || c.Fault == "cancel-before+reply"
+	ctxErr := context.Canceled
+	if c.Fault == "ctx-deadline" {
+		// the deadline "cancels" once the virtual clock has passed it (the call cannot end earlier on a silent line)
+		ctxErr = context.DeadlineExceeded
+		cancelled = run.Elapsed >= ctxTimeout
+	}
 	if c.Fault == "cancel" {
 		for _, p := range explorePoints(run) {
 			if p == "cancel" {
@@ -271,7 +284,7 @@ func judge(sc clientx.Sc, run clientx.Run, c Case, res *ev.Result) (nontrivial b
 			bad("write-error-misclassified", fmt.Sprintf("error %v (%T) does not wrap the write failure in *ClientError", run.Err, run.Err))
 		}
 	case cancelled && !sawInjectedRead && !oversize:
-		if !errors.Is(run.Err, context.Canceled) {
+		if !errors.Is(run.Err, ctxErr) {
 			// the cancel is injected together with an empty read, so the client reaches its next context test first
 			bad("cancel-misclassified", fmt.Sprintf("context was cancelled but error is %v (%T)", run.Err, run.Err))
 		}
@@ -288,7 +301,7 @@ func judge(sc clientx.Sc, run clientx.Run, c Case, res *ev.Result) (nontrivial b
 			bad("timeout-misclassified", fmt.Sprintf("virtual clock reached the read timeout (%v) but the call returned %v (%T)", run.Elapsed, run.Err, run.Err))
 		}
 	}
-	if sc.Kind == clientx.SerialFlusher && c.Fault != "flush-error" && run.Flushes == 0 && len(run.Log) > 0 && !cancelled && !timedOut {
+	if sc.Kind == clientx.SerialFlusher && !strings.HasSuffix(c.Fault, "flush-error") && run.Flushes == 0 && len(run.Log) > 0 && !cancelled && !timedOut {
 		// serial client promises to flush the port on failure paths (not demanded by C08's statement; reported as an outcome only)
 		res.Outcome("serial-failure-without-flush")
 	}
@@ -335,7 +348,7 @@ func mkCase(sc clientx.Sc, fault string, p, cuts int) Case {
 
 func execute(sc clientx.Sc, c Case, x *explore.Ctx) clientx.Run {
 	x.SetBudget("cut", c.Cuts)
-	f := &faulty{c: x, kind: sc.Kind, fault: c.Fault, p: c.Prefix}
+	f := &faulty{c: x, kind: sc.Kind, fault: strings.TrimSuffix(c.Fault, "+flush-error"), p: c.Prefix}
 	run := clientx.Execute(sc.Scenario, sc.Q, f, opts(c))
 	lastFired = f.fired
 	return run
@@ -362,11 +375,11 @@ func run(tier string, shard, nsh int, res *ev.Result) {
 			if (fault == "setwritedeadline-error") && sc.Kind.IsSerial() {
 				continue
 			}
-			if fault == "flush-error" && sc.Kind != clientx.SerialFlusher {
+			if strings.HasSuffix(fault, "flush-error") && sc.Kind != clientx.SerialFlusher {
 				continue
 			}
 			for p := 0; p <= n; p++ {
-				if (fault == "write-error" || fault == "setwritedeadline-error" || fault == "cancel-before") && p > 0 {
+				if (fault == "write-error" || fault == "write-error+flush-error" || fault == "setwritedeadline-error" || fault == "cancel-before") && p > 0 {
 					break
 				}
 				if fault == "cancel-before+reply" && p < n {
